@@ -54,6 +54,7 @@ def gen_line(rng):
         if not zeno(st):
             break
     horizon = rng.choice([5, 10, 17.5, 30, 60, 100, 300])
+    falsy = rng.random() < 0.15
     x = rng.random()
     if x > 0.995:
         # scale: more than a thousand parts maturing in one buffer at the same instant and leaving it in one event
@@ -104,7 +105,12 @@ def gen_line(rng):
     if horizon / rate * len(st) > 6000:
         horizon = max(5, min(horizon, 6000 * rate / len(st)))
         horizon = int(horizon * 8) / 8.0
-    return {'stations': st, 'horizon': horizon}
+    out = {'stations': st, 'horizon': horizon}
+    if rng.random() < 0.15:
+        out['scratch_at'] = rng.randrange(1, max(2, int(horizon * 8))) / 8.0
+    if falsy:
+        out['falsy_parts'] = True
+    return out
 
 
 class HarnessError(Exception):
@@ -139,6 +145,15 @@ def sim_to(system, t_end, counter):
             counter[0] += 1
 
 
+class Scratch:
+    def __init__(self, ids):
+        self.ids = ids
+        self.__name__ = 'scratch_environment'
+
+    def __call__(self):
+        instrument.scratch_environment(self.ids)
+
+
 class TopUp:
     def __init__(self, src, m):
         self.src, self.m = src, m
@@ -149,6 +164,23 @@ class TopUp:
 
 
 RAISED = [0]
+_TRAYGEN = []
+
+
+def tray_generator():
+    """A generator of falsy parts: a user's Part subclass whose __len__ is 0 (an empty tray)."""
+    if not _TRAYGEN:
+        from simprocesd.model.factory_floor import Part, PartGenerator
+
+        class Tray(Part):
+            def __len__(self):
+                return 0
+
+        class TrayGenerator(PartGenerator):
+            def generate_part_helper(self, part_name, part_number):
+                return Tray(name=part_name)
+        _TRAYGEN.append(TrayGenerator)
+    return _TRAYGEN[0]('tray')
 
 
 def run_line(line, tie, tie_seed):
@@ -166,6 +198,8 @@ def run_line(line, tie, tie_seed):
                 kw = {}
                 if s.get('budget') is not None:
                     kw['starting_parts'] = s['budget']
+                if line.get('falsy_parts'):
+                    kw['part_generator'] = tray_generator()
                 d = Source(name=nm, cycle_time=s['ct'], **kw)
             elif s['kind'] == 'handler':
                 d = PartHandler(name=nm, upstream=[prev], cycle_time=s['ct'])
@@ -184,6 +218,10 @@ def run_line(line, tie, tie_seed):
             for T, m in tops:
                 system.env.schedule_event(T, devs[0].id, TopUp(devs[0], m), 5 + (m % 3) * 10)
             tops = []
+        if line.get('scratch_at') is not None:
+            # a private Environment of the user's own, created and run from an event in the middle of the line's run
+            ids = [d.id for d in devs[:3]]
+            system.env.schedule_event(line['scratch_at'], -2, Scratch(ids), 6)
         caught = [0]
         for T, m in tops:
             if T > system.env.now:
@@ -298,4 +336,4 @@ def run(sh):
 def replay(sh, v):
     case = v['case']
     pol = [case['tie']] if case.get('tie') else list(ties.POLICIES)
-    check_line(sh, {'stations': case['line']['stations'], 'horizon': case['line']['horizon']}, pol)
+    check_line(sh, dict(case['line']), pol)
